@@ -12,6 +12,10 @@
 //
 // The program asks for the same spellings, types and constants the harnesses ask for (reserved words, the empty word,
 // "C"/"C++", the short names x, y, T, m0, ...), so that a process-wide memo filled by the decoy collides with the harness.
+//
+// Attribution: the decoys of the check of property X only perform the *kinds of operation X's own alphabet consists of*
+// (sections below, chosen per property in sections_for): a crash of the second decoy while it asks for qualified types
+// says something about C11, not about C12.  A check never runs a section its property has no business with.
 #ifndef VERIF_PRELUDE_HPP
 #define VERIF_PRELUDE_HPP
 
@@ -22,6 +26,7 @@
 #include <sstream>
 #include <stdexcept>
 #include <string>
+#include <vector>
 
 namespace vf {
    namespace prelude_detail {
@@ -37,269 +42,369 @@ namespace vf {
          void visit(const ipr::Decl&) override { ++n; }
       };
 
-      inline void program(ipr::impl::Lexicon& lex, ipr::impl::Translation_unit& unit, std::string& out)
+      enum : unsigned { WORDS = 1, CONSTS = 2, LINK = 4, SPEC = 8, TYPES = 16, NAMES = 32, EXPRS = 64, DECLS = 128, SUBST = 256, PRINT = 512, VISIT = 1024, MODULE = 2048,
+                        CONSTRUCTION = WORDS | CONSTS | LINK | SPEC | TYPES | NAMES | EXPRS | DECLS | SUBST | MODULE, ALL = CONSTRUCTION | PRINT | VISIT };
+
+      // Which kinds of operation the decoys of each check perform: those its property quantifies over.
+      inline unsigned sections_for(const char* prop)
       {
-         const ipr::Lexicon& L = lex;
-         auto& G = *unit.global_region();
+         static const struct { const char* id; unsigned sections; } table[] = {
+            { "C01", WORDS | CONSTS | LINK | TYPES },                    // unified types (linkage and convention are part of a function type's key)
+            { "C02", CONSTRUCTION },                                     // every factory
+            { "C03", WORDS },                                            // interned words
+            { "C04", WORDS | CONSTS | TYPES | NAMES },                   // names and atoms (conversion / constructor names are keyed on types)
+            { "C05", CONSTRUCTION },                                     // identity of everything handed out
+            { "C06", CONSTRUCTION | VISIT },                             // category, accept, visitor defaults
+            { "C07", WORDS | TYPES | DECLS },                            // scopes, overload sets, declaration sets
+            { "C08", 0 },                                                // the tree utility on its own: no Lexicon is involved
+            { "C09", CONSTRUCTION },                                     // the type of every node
+            { "C10", WORDS | SPEC },                                     // specifier and qualifier sets
+            { "C11", WORDS | SPEC | TYPES },                             // qualified types
+            { "C12", WORDS | TYPES | DECLS | MODULE },                   // regions
+            { "C13", WORDS | CONSTS | LINK | SPEC | TYPES | NAMES },     // Lexicon constants and the routes to them
+            { "C14", CONSTRUCTION },                                     // accessors of everything
+            { "C15", CONSTRUCTION },                                     // derived operations
+            { "C16", WORDS | TYPES | DECLS | SUBST },                    // substitutions over parameters
+            { "C17", ALL }, { "C18", ALL },                              // printing
+            { "C19", ALL }, { "C20", ALL },                              // lifetime and isolation of whole Lexicons
+         };
+         for (auto& row : table) if (std::strcmp(row.id, prop) == 0) return row.sections;
+         return 0;
+      }
+
+      // Every section is self-contained: it asks for the words, types and atoms it needs itself, as the harness of a property
+      // whose alphabet is that section does.
+      struct Program {
+         ipr::impl::Lexicon& lex;
+         ipr::impl::Translation_unit& unit;
+         std::string& out;
+         unsigned sections;
+         const ipr::Lexicon& L;
          AnyVisitor av;
+         Program(ipr::impl::Lexicon& l, ipr::impl::Translation_unit& u, std::string& o, unsigned s) : lex{ l }, unit{ u }, out{ o }, sections{ s }, L{ l } { }
 
-         // -- words, identifiers, constants
-         static const char8_t* const words[] = {
-            u8"", u8"x", u8"y", u8"s", u8"T", u8"g", u8"f", u8"r", u8"a", u8"b", u8"m0", u8"m1", u8"m2", u8"N", u8"E", u8"C", u8"D", u8"C++", u8"Java",
-            u8"int", u8"const", u8"volatile", u8"static", u8"default", u8"delete", u8"this", u8"unsigned long long", u8"alpha", u8"beta", u8"retry", u8"done",
-            u8"count", u8"bufsz", u8"second", u8"Widget", u8"Gadget", u8"Colour", u8"red", u8"green", u8"blue", u8"local-08", u8"v0", u8"e0", u8"e1", u8"it",
-            u8"a-rather-long-word-that-needs-several-granules", u8"exactly8", u8"exactly-twenty-four-byte", u8"+", u8"()", u8"[]", u8"<=>", u8"_km",
-            u8"stdcall", u8"fastcall", u8"cdecl", u8"thiscall", u8"vectorcall" };
-         for (auto w : words) { auto& s = lex.get_string(w); auto& id = lex.get_identifier(w); (void) lex.get_identifier(s); id.accept(av); }
-         const ipr::Type* builtins[] = { &L.void_type(), &L.bool_type(), &L.char_type(), &L.schar_type(), &L.uchar_type(), &L.wchar_t_type(), &L.char8_t_type(), &L.char16_t_type(),
-                                         &L.char32_t_type(), &L.short_type(), &L.ushort_type(), &L.int_type(), &L.uint_type(), &L.long_type(), &L.ulong_type(), &L.long_long_type(),
-                                         &L.ulong_long_type(), &L.float_type(), &L.double_type(), &L.long_double_type(), &L.ellipsis_type(), &L.typename_type(), &L.class_type(),
-                                         &L.union_type(), &L.enum_type(), &L.namespace_type() };
-         for (auto t : builtins) { (void) t->name(); (void) t->type(); t->accept(av); }
-         for (auto c : { &L.false_value(), &L.true_value(), &L.nullptr_value(), &L.default_value(), &L.delete_value() }) { (void) c->name(); (void) c->type(); }
+         bool on(unsigned s) const { return (sections & s) != 0; }
+         void look(const ipr::Node& n) { if (on(VISIT)) n.accept(av); }
+         const ipr::Identifier& id(const char8_t* s) { return lex.get_identifier(s); }
+         const ipr::Expr& idx(const char8_t* s) { return *lex.make_id_expr(lex.get_identifier(s)); }
 
-         // -- linkages, conventions, transfers
-         auto& lc = lex.get_linkage(u8"C");
-         auto& lcxx = lex.get_linkage(u8"C++");
-         auto& lj = lex.get_linkage(u8"Java");
-         (void) (lc == L.c_linkage()); (void) (lcxx == L.cxx_linkage());
-         auto& natural = lex.get_calling_convention(u8"");
-         auto& stdcall = lex.get_calling_convention(u8"stdcall");
-         auto& fastcall = lex.get_calling_convention(u8"fastcall");
-         auto& xc = lex.get_transfer_from_linkage(lc);
-         auto& xs = lex.get_transfer_from_convention(stdcall);
-         auto& xjf = lex.get_transfer(lj, fastcall);
-         auto& xcn = lex.get_transfer(lc, natural);
-         auto& xxf = lex.get_transfer(lcxx, fastcall);
-         (void) xcn; (void) xjf;
-
-         // -- specifiers and qualifiers
-         auto cv = L.const_qualifier() | L.volatile_qualifier();
-         auto cvr = cv | L.restrict_qualifier();
-         (void) lex.decompose(cvr);
-         (void) lex.decompose(L.static_specifier() | L.constexpr_specifier() | L.inline_specifier() | L.virtual_specifier());
-         for (auto w : { u8"const", u8"volatile", u8"restrict" }) (void) lex.qualifiers(ipr::Basic_qualifier{ lex.get_logogram(lex.get_string(w)) });
-         for (auto w : { u8"static", u8"extern", u8"inline", u8"virtual", u8"constexpr", u8"mutable", u8"public", u8"export" }) (void) lex.specifiers(ipr::Basic_specifier{ lex.get_logogram(lex.get_string(w)) });
-         try { (void) lex.qualifiers(ipr::Basic_qualifier{ lex.get_logogram(lex.get_string(u8"no-such-qualifier")) }); } catch (...) { }
-         try { (void) lex.specifiers(ipr::Basic_specifier{ lex.get_logogram(lex.get_string(u8"const")) }); } catch (...) { }
-
-         // -- types
-         auto& pint = lex.get_pointer(L.int_type());
-         auto& ppint = lex.get_pointer(pint);
-         auto& rint = lex.get_reference(L.int_type());
-         auto& rrint = lex.get_rvalue_reference(L.int_type());
-         auto& cint = lex.get_qualified(L.const_qualifier(), L.int_type());
-         auto& cvint = lex.get_qualified(L.volatile_qualifier(), cint);
-         auto& cvrp = lex.get_qualified(cvr, pint);
-         try { (void) lex.get_qualified(ipr::Qualifiers{ }, L.int_type()); } catch (...) { }
-         auto& arr = lex.get_array(L.char_type(), *lex.make_literal(L.int_type(), u8"8"));
-         ipr::impl::Warehouse<ipr::Type> w0, w1, w2;
-         w1.push_back(L.int_type());
-         w2.push_back(L.int_type()); w2.push_back(pint);
-         auto& p0 = lex.get_product(w0);
-         auto& p1 = lex.get_product(w1);
-         auto& p2 = lex.get_product(w2);
-         auto& s2 = lex.get_sum(w2);
-         auto& f0 = lex.get_function(p0, L.void_type());
-         auto& f1 = lex.get_function(p1, L.int_type());
-         auto& f1c = lex.get_function(p1, L.int_type(), xc);
-         auto& f1s = lex.get_function(p1, L.int_type(), xs);
-         auto& f1x = lex.get_function(p1, L.int_type(), xxf);
-         auto& f2t = lex.get_function(p2, cvint, L.true_value());
-         (void) lex.get_tor(p1, s2);
-         auto& pm = lex.get_ptr_to_member(L.class_type(), L.int_type());
-         auto& dt = lex.get_decltype(*lex.make_id_expr(lex.get_identifier(u8"x")));
-         auto& au = lex.get_auto();
-         auto& at_i = lex.get_as_type(lex.get_identifier(u8"int"));
-         auto& at_T = lex.get_as_type(lex.get_identifier(u8"T"));
-         auto& at_e = lex.get_as_type(*lex.make_id_expr(lex.get_identifier(u8"T")));
-         ipr::impl::Warehouse<ipr::Type> wt; wt.push_back(L.typename_type());
-         auto& fa = lex.get_forall(lex.get_product(wt), L.class_type());
-         const ipr::Type* types[] = { &pint, &ppint, &rint, &rrint, &cint, &cvint, &cvrp, &arr, &p0, &p1, &p2, &s2, &f0, &f1, &f1c, &f1s, &f1x, &f2t, &pm, &dt, &au, &at_i, &at_T, &at_e, &fa };
-         for (auto t : types) { (void) t->type(); try { (void) t->name(); } catch (const std::logic_error&) { } t->accept(av); }
-         (void) f1c.transfer(); (void) f1c.linkage(); (void) f2t.throws();
-         (void) lex.get_this(L.class_type()); (void) lex.get_this(pint); (void) lex.get_this(L.class_type());
-
-         // -- names, atoms
-         auto& op_plus = lex.get_operator(u8"+");
-         auto& op_call = lex.get_operator(lex.get_string(u8"()"));
-         auto& sfx = lex.get_suffix(lex.get_identifier(u8"_km"));
-         auto& conv = lex.get_conversion(pint);
-         auto& ctor = lex.get_ctor_name(at_T);
-         auto& dtor = lex.get_dtor_name(at_T);
-         auto& lit7 = lex.get_literal(L.int_type(), u8"7");
-         auto& lits = lex.get_literal(L.char_type(), u8"a\nb\x01\x02z");
-         auto& lab = lex.get_label(lex.get_identifier(u8"retry"));
-         (void) lex.get_label(lex.get_identifier(u8"default"));
-         auto& sym = lex.get_symbol(op_plus, L.int_type());
-         (void) lex.get_symbol(op_plus, L.char_type());
-         (void) lex.get_symbol(lex.get_identifier(u8"x"), L.int_type());
-         const ipr::Name* names[] = { &op_plus, &op_call, &sfx, &conv, &ctor, &dtor };
-         for (auto n : names) n->accept(av);
-         (void) sym.type(); (void) lab.type(); (void) lits.type();
-
-         // -- expressions
-         auto idx = [&](const char8_t* s) -> const ipr::Expr& { return *lex.make_id_expr(lex.get_identifier(s)); };
-         auto* sum = lex.make_plus(lit7, *lex.make_mul(idx(u8"x"), idx(u8"y")));
-         auto* args = lex.make_expr_list();
-         args->push_back(sum); args->push_back(&idx(u8"s"));
-         auto* call = lex.make_call(idx(u8"g"), *args);
-         auto* cond = lex.make_conditional(idx(u8"x"), *call, *lex.make_unary_minus(lit7));
-         auto* cast = lex.make_static_cast(pint, *lex.make_address(idx(u8"y")));
-         auto& tid = lex.get_template_id(idx(u8"T"), *args);
-         auto* enc = lex.make_enclosure(ipr::Delimiter::Brace, *args);
-         auto* cons = lex.make_construction(at_T, *enc);
-         auto* nw = lex.make_new({ }, *cons);
-         const ipr::Expr* exprs[] = { sum, call, cond, cast, lex.make_id_expr(tid), cons, nw, lex.make_sizeof(idx(u8"x")), lex.make_not(idx(u8"y")), lex.make_assign(idx(u8"x"), lit7),
-                                      lex.make_array_ref(idx(u8"x"), lit7), lex.make_dot(idx(u8"x"), idx(u8"m0")), lex.make_arrow(idx(u8"y"), idx(u8"m1")), lex.make_comma(idx(u8"x"), idx(u8"y")),
-                                      lex.make_post_increment(idx(u8"x")), lex.make_deref(idx(u8"y")), lex.make_throw(lit7) };
-
-         // -- declarations: variables, a function with a body, user-defined types, templates, an alias
-         auto* v = G.declare_var(lex.get_identifier(u8"count"), cint);
-         v->init = lex.make_literal(L.int_type(), u8"1024");
-         v->src_locus = ipr::Source_location{ ipr::Line_number{ 11 }, ipr::Column_number{ 22 }, ipr::File_index{ 1 } };
-         v->decl_data.spec = L.static_specifier() | L.constexpr_specifier();
-         auto* v2 = G.declare_var(lex.get_identifier(u8"x"), L.int_type());
-         auto* v3 = G.declare_var(lex.get_identifier(u8"x"), L.int_type());           // a redeclaration
-         auto* v4 = G.declare_var(lex.get_identifier(u8"x"), L.char_type());          // same name, another type
-         v3->init = cond;
-         (void) v2; (void) v4;
-         auto* al = G.declare_alias(lex.get_identifier(u8"y"), pint);
-         (void) al;
-         auto* fn = G.declare_fun(lex.get_identifier(u8"f"), f1);
-         auto* m = lex.make_mapping(G, ipr::Mapping_level{ 0 });
-         auto* pa = m->param(lex.get_identifier(u8"a"), L.int_type());
-         auto* pb = m->param(lex.get_identifier(u8""), L.int_type());
-         (void) pb;
-         pa->init = &lit7;
-         m->typing = &f1;
-         auto* body = lex.make_block(m->inputs.region());
+         void words()
          {
-            ipr::impl::Block* cur = body;
-            for (int d = 0; d < 30; ++d) { auto* inner = lex.make_block(cur->lexical_region); cur->add_stmt(*inner); cur = inner; }
-            auto* local = cur->lexical_region.declare_var(lex.get_identifier(u8"local-08"), L.int_type());
-            local->init = sum;
-            local->src_locus = ipr::Source_location{ ipr::Line_number{ 3 }, ipr::Column_number{ 4 }, ipr::File_index{ 2 } };
-            cur->add_stmt(*local);
-            auto* wh = lex.make_while(); wh->control = exprs[8]; wh->stmt = lex.make_break();
-            cur->add_stmt(*wh);
-            auto* fr = lex.make_for(); fr->init = exprs[9]; fr->cond = &idx(u8"x"); fr->inc = exprs[14]; fr->stmt = lex.make_continue();
-            cur->add_stmt(*fr);
-            cur->add_stmt(*lex.make_if(idx(u8"x"), *lex.make_return(*sum), *lex.make_goto(lab)));
-            cur->add_stmt(*lex.make_labeled_stmt(lab, *lex.make_expr_stmt(*call)));
-            auto* sw = lex.make_switch(); sw->control = &idx(u8"x"); sw->stmt = lex.make_break();
-            cur->add_stmt(*sw);
-            auto* h = body->new_handler(lex.get_identifier(u8"e0"), L.int_type());
-            h->body().add_stmt(*lex.make_return(lit7));
-            auto* h2 = body->new_handler(lex.get_identifier(u8"e1"), L.ellipsis_type());
-            h2->body().add_stmt(*lex.make_expr_stmt(*lex.make_throw(lit7)));
+            static const char8_t* const spellings[] = {
+               u8"", u8"x", u8"y", u8"s", u8"T", u8"g", u8"f", u8"r", u8"a", u8"b", u8"m0", u8"m1", u8"m2", u8"N", u8"E", u8"C", u8"D", u8"C++", u8"Java",
+               u8"int", u8"const", u8"volatile", u8"static", u8"default", u8"delete", u8"this", u8"unsigned long long", u8"alpha", u8"beta", u8"retry", u8"done",
+               u8"count", u8"bufsz", u8"second", u8"Widget", u8"Gadget", u8"Colour", u8"red", u8"green", u8"blue", u8"local-08", u8"v0", u8"e0", u8"e1", u8"it",
+               u8"a-rather-long-word-that-needs-several-granules", u8"exactly8", u8"exactly-twenty-four-byte", u8"+", u8"()", u8"[]", u8"<=>", u8"_km",
+               u8"stdcall", u8"fastcall", u8"cdecl", u8"thiscall", u8"vectorcall" };
+            for (auto w : spellings) { auto& s = lex.get_string(w); out.append(reinterpret_cast<const char*>(s.characters().data()), s.characters().size()); }
+            for (auto w : spellings) { auto& s = lex.get_string(w); (void) s.characters().size(); }
          }
-         m->body = body;
-         fn->data.emplace<1>(m);
 
-         auto* cls = lex.make_class(G);
-         cls->id = &lex.get_identifier(u8"Widget");
-         auto* base = lex.make_class(G); base->id = &lex.get_identifier(u8"D");
-         cls->declare_base(*base); cls->declare_base(at_T);
-         cls->declare_field(lex.get_identifier(u8"m0"), L.int_type());
-         cls->declare_field(lex.get_identifier(u8"m1"), lex.get_pointer(*cls));
-         auto* bf = cls->declare_bitfield(lex.get_identifier(u8"m2"), L.int_type()); bf->length = &lit7;
-         G.declare_type(lex.get_identifier(u8"Widget"), L.class_type())->init = cls;
-         auto* en = lex.make_enum(G, ipr::Enum::Kind::Scoped);
-         en->id = &lex.get_identifier(u8"Colour");
-         for (auto w : { u8"red", u8"green", u8"blue" }) en->add_member(lex.get_identifier(w))->init = &lit7;
-         G.declare_type(lex.get_identifier(u8"Colour"), L.enum_type())->init = en;
-         auto* un = lex.make_union(G); un->id = &lex.get_identifier(u8"E");
-         un->declare_field(lex.get_identifier(u8"m0"), L.int_type()); un->declare_field(lex.get_identifier(u8"m1"), pint);
-         G.declare_type(lex.get_identifier(u8"E"), L.union_type())->init = un;
-         auto* ns = lex.make_namespace(G); ns->id = &lex.get_identifier(u8"N");
-         ns->declare_var(lex.get_identifier(u8"m0"), L.int_type())->init = &lit7;
-         G.declare_type(lex.get_identifier(u8"N"), L.namespace_type())->init = ns;
-
-         auto* tm = lex.make_mapping(G, ipr::Mapping_level{ 0 });
-         auto* tp = tm->param(lex.get_identifier(u8"T"), L.typename_type());
-         tm->typing = &fa;
-         tm->body = &pint;
-         auto* tpl = G.declare_primary_template(lex.get_identifier(u8"T"), fa);
-         tpl->init = tm;
-         auto* tpl2 = G.declare_primary_template(lex.get_identifier(u8"T"), fa);      // a redeclaration
-         (void) tpl2;
-         (void) lex.get_guide_name(*tpl);
-         auto* fnc = G.declare_fun(lex.get_identifier(u8"f"), f1c);      // (no mapping: the printer refuses it, so it comes last)
-         (void) fnc;
-
-         // -- lookups and derived operations
-         const ipr::Scope& gs = G.bindings();
-         for (auto w : { u8"x", u8"f", u8"T", u8"count", u8"nothing-declared" }) {
-            auto ov = gs[lex.get_identifier(w)];
-            if (ov.is_valid()) { auto& o = ov.get(); (void) o[static_cast<const ipr::Lexicon&>(lex).int_type()]; (void) o[static_cast<const ipr::Lexicon&>(lex).char_type()]; }
+         void constants()
+         {
+            const ipr::Type* builtins[] = { &L.void_type(), &L.bool_type(), &L.char_type(), &L.schar_type(), &L.uchar_type(), &L.wchar_t_type(), &L.char8_t_type(), &L.char16_t_type(),
+                                            &L.char32_t_type(), &L.short_type(), &L.ushort_type(), &L.int_type(), &L.uint_type(), &L.long_type(), &L.ulong_type(), &L.long_long_type(),
+                                            &L.ulong_long_type(), &L.float_type(), &L.double_type(), &L.long_double_type(), &L.ellipsis_type(), &L.typename_type(), &L.class_type(),
+                                            &L.union_type(), &L.enum_type(), &L.namespace_type() };
+            for (auto t : builtins) { (void) t->name(); (void) t->type(); look(*t); }
+            for (auto c : { &L.false_value(), &L.true_value(), &L.nullptr_value(), &L.default_value(), &L.delete_value() }) { (void) c->name(); (void) c->type(); }
+            for (auto w : { u8"int", u8"bool", u8"unsigned long long", u8"", u8"this", u8"default", u8"x" }) { auto& i = id(w); (void) lex.get_identifier(lex.get_string(w)); look(i); }
          }
-         { for (auto& d : gs.elements()) {
-            (void) d.name(); (void) d.type();
-            try { (void) d.home_region(); (void) d.lexical_region(); } catch (const std::logic_error&) { }
-            try { (void) d.master(); (void) d.decl_set().size(); } catch (const std::logic_error&) { }
-            d.accept(av);
-         } }
-         try { (void) tpl->parameters().size(); (void) tpl->result(); } catch (const std::logic_error&) { }
-         (void) static_cast<const ipr::Block&>(*body).try_block();
 
-         // -- substitutions
-         auto* es = lex.make_elementary_substitution(*tp, pint);
-         (void) static_cast<const ipr::Substitution&>(*es)[*tp];
-         (void) static_cast<const ipr::Substitution&>(*es)[*pa];
-         auto* gsub = lex.make_general_substitution();
-         gsub->subst(*tp, L.int_type()).subst(*pa, lit7).subst(*tp, pint);
-         (void) static_cast<const ipr::Substitution&>(*gsub)[*tp];
-         (void) static_cast<const ipr::Substitution&>(*gsub)[*pa];
-
-         // -- printing: the unit with and without locations, pieces on their own, numbers in between
-         for (int locations = 0; locations < 2; ++locations) {
-            std::ostringstream os;
-            os << std::hex << std::showbase;
-            ipr::Printer pp{ lex, os };
-            pp.print_locations = locations != 0;
-            try { pp << unit; } catch (const std::logic_error&) { os << "<refused>"; }
-            for (auto t : types) { try { pp << ipr::xpr_type(*t); } catch (const std::logic_error&) { os << "<refused>"; } os << ' '; }
-            for (auto e : exprs) { try { pp << ipr::xpr_expr(*e); } catch (const std::logic_error&) { os << "<refused>"; } os << ' '; }
-            try { pp << ipr::xpr_stmt(*body); } catch (const std::logic_error&) { os << "<refused>"; }
-            out += os.str();
+         void linkages()
+         {
+            auto& lc = lex.get_linkage(u8"C");
+            auto& lcxx = lex.get_linkage(u8"C++");
+            auto& lj = lex.get_linkage(u8"Java");
+            (void) (lc == L.c_linkage()); (void) (lcxx == L.cxx_linkage());
+            auto& natural = lex.get_calling_convention(u8"");
+            auto& stdcall = lex.get_calling_convention(u8"stdcall");
+            auto& fastcall = lex.get_calling_convention(u8"fastcall");
+            (void) lex.get_transfer_from_linkage(lc);
+            (void) lex.get_transfer_from_convention(stdcall);
+            (void) lex.get_transfer(lj, fastcall);
+            (void) lex.get_transfer(lc, natural);
+            (void) lex.get_transfer(lcxx, fastcall);
+            (void) lex.get_transfer(lcxx, natural);
          }
-         out += std::to_string(av.n);
-      }
 
-      inline void module_program(ipr::impl::Lexicon& lex, std::string& out)
-      {
-         ipr::impl::Module mod{ lex };
-         auto* iu = mod.make_unit();
-         iu->global_region()->declare_var(lex.get_identifier(u8"x"), static_cast<const ipr::Lexicon&>(lex).int_type());
-         mod.iface.global_region()->declare_var(lex.get_identifier(u8"y"), static_cast<const ipr::Lexicon&>(lex).int_type());
-         std::ostringstream os;
-         ipr::Printer pp{ lex, os };
-         try { pp << static_cast<const ipr::Translation_unit&>(*iu); } catch (const std::logic_error&) { }
-         out += os.str();
-      }
+         void specifiers()
+         {
+            auto cvr = L.const_qualifier() | L.volatile_qualifier() | L.restrict_qualifier();
+            (void) lex.decompose(cvr);
+            (void) lex.decompose(L.static_specifier() | L.constexpr_specifier() | L.inline_specifier() | L.virtual_specifier());
+            for (auto w : { u8"const", u8"volatile", u8"restrict" }) (void) lex.qualifiers(ipr::Basic_qualifier{ lex.get_logogram(lex.get_string(w)) });
+            for (auto w : { u8"static", u8"extern", u8"inline", u8"virtual", u8"constexpr", u8"mutable", u8"public", u8"export" }) (void) lex.specifiers(ipr::Basic_specifier{ lex.get_logogram(lex.get_string(w)) });
+            try { (void) lex.qualifiers(ipr::Basic_qualifier{ lex.get_logogram(lex.get_string(u8"no-such-qualifier")) }); } catch (...) { }
+            try { (void) lex.specifiers(ipr::Basic_specifier{ lex.get_logogram(lex.get_string(u8"const")) }); } catch (...) { }
+         }
+
+         std::vector<const ipr::Type*> made_types;
+         void types()
+         {
+            auto& pint = lex.get_pointer(L.int_type());
+            auto& ppint = lex.get_pointer(pint);
+            auto& rint = lex.get_reference(L.int_type());
+            auto& rrint = lex.get_rvalue_reference(L.int_type());
+            auto& cint = lex.get_qualified(L.const_qualifier(), L.int_type());
+            auto& cvint = lex.get_qualified(L.volatile_qualifier(), cint);
+            auto& cvrp = lex.get_qualified(L.const_qualifier() | L.volatile_qualifier() | L.restrict_qualifier(), pint);
+            try { (void) lex.get_qualified(ipr::Qualifiers{ }, L.int_type()); } catch (...) { }
+            auto& arr = lex.get_array(L.char_type(), *lex.make_literal(L.int_type(), u8"8"));
+            ipr::impl::Warehouse<ipr::Type> w0, w1, w2, wt;
+            w1.push_back(L.int_type());
+            w2.push_back(L.int_type()); w2.push_back(pint);
+            wt.push_back(L.typename_type());
+            auto& p0 = lex.get_product(w0);
+            auto& p1 = lex.get_product(w1);
+            auto& p2 = lex.get_product(w2);
+            auto& s2 = lex.get_sum(w2);
+            auto& xc = lex.get_transfer_from_linkage(lex.get_linkage(u8"C"));
+            auto& xs = lex.get_transfer_from_convention(lex.get_calling_convention(u8"stdcall"));
+            auto& xxf = lex.get_transfer(lex.get_linkage(u8"C++"), lex.get_calling_convention(u8"fastcall"));
+            auto& f0 = lex.get_function(p0, L.void_type());
+            auto& f1 = lex.get_function(p1, L.int_type());
+            auto& f1c = lex.get_function(p1, L.int_type(), xc);
+            auto& f1s = lex.get_function(p1, L.int_type(), xs);
+            auto& f1x = lex.get_function(p1, L.int_type(), xxf);
+            auto& f2t = lex.get_function(p2, cvint, L.true_value());
+            (void) lex.get_tor(p1, s2);
+            auto& pm = lex.get_ptr_to_member(L.class_type(), L.int_type());
+            auto& dt = lex.get_decltype(idx(u8"x"));
+            auto& au = lex.get_auto();
+            auto& at_i = lex.get_as_type(id(u8"int"));
+            auto& at_T = lex.get_as_type(id(u8"T"));
+            auto& at_e = lex.get_as_type(idx(u8"T"));
+            auto& fa = lex.get_forall(lex.get_product(wt), L.class_type());
+            made_types = { &pint, &ppint, &rint, &rrint, &cint, &cvint, &cvrp, &arr, &p0, &p1, &p2, &s2, &f0, &f1, &f1c, &f1s, &f1x, &f2t, &pm, &dt, &au, &at_i, &at_T, &at_e, &fa };
+            for (auto t : made_types) { (void) t->type(); try { (void) t->name(); } catch (const std::logic_error&) { } look(*t); }
+            (void) f1c.transfer(); (void) f1c.linkage(); (void) f2t.throws();
+         }
+
+         void names()
+         {
+            auto& pint = lex.get_pointer(L.int_type());
+            auto& at_T = lex.get_as_type(id(u8"T"));
+            auto& op_plus = lex.get_operator(u8"+");
+            const ipr::Name* made[] = { &op_plus, &lex.get_operator(lex.get_string(u8"()")), &lex.get_suffix(id(u8"_km")), &lex.get_conversion(pint), &lex.get_ctor_name(at_T), &lex.get_dtor_name(at_T) };
+            for (auto n : made) look(*n);
+            (void) lex.get_this(L.class_type()); (void) lex.get_this(pint); (void) lex.get_this(L.class_type());
+            (void) lex.get_literal(L.int_type(), u8"7").type();
+            (void) lex.get_literal(L.char_type(), u8"a\nb\x01\x02z").type();
+            (void) lex.get_label(id(u8"retry")).type();
+            (void) lex.get_label(id(u8"default"));
+            (void) lex.get_symbol(op_plus, L.int_type()).type();
+            (void) lex.get_symbol(op_plus, L.char_type());
+            (void) lex.get_symbol(id(u8"x"), L.int_type());
+         }
+
+         std::vector<const ipr::Expr*> made_exprs;
+         void expressions()
+         {
+            auto& lit7 = lex.get_literal(L.int_type(), u8"7");
+            auto* sum = lex.make_plus(lit7, *lex.make_mul(idx(u8"x"), idx(u8"y")));
+            auto* args = lex.make_expr_list();
+            args->push_back(sum); args->push_back(&idx(u8"s"));
+            auto* call = lex.make_call(idx(u8"g"), *args);
+            auto* cond = lex.make_conditional(idx(u8"x"), *call, *lex.make_unary_minus(lit7));
+            auto* cast = lex.make_static_cast(lex.get_pointer(L.int_type()), *lex.make_address(idx(u8"y")));
+            auto& tid = lex.get_template_id(idx(u8"T"), *args);
+            auto* enc = lex.make_enclosure(ipr::Delimiter::Brace, *args);
+            auto* cons = lex.make_construction(lex.get_as_type(id(u8"T")), *enc);
+            auto* nw = lex.make_new({ }, *cons);
+            made_exprs = { sum, call, cond, cast, lex.make_id_expr(tid), cons, nw, lex.make_sizeof(idx(u8"x")), lex.make_not(idx(u8"y")), lex.make_assign(idx(u8"x"), lit7),
+                           lex.make_array_ref(idx(u8"x"), lit7), lex.make_dot(idx(u8"x"), idx(u8"m0")), lex.make_arrow(idx(u8"y"), idx(u8"m1")), lex.make_comma(idx(u8"x"), idx(u8"y")),
+                           lex.make_post_increment(idx(u8"x")), lex.make_deref(idx(u8"y")), lex.make_throw(lit7) };
+            for (auto e : made_exprs) { try { (void) e->type(); } catch (const std::logic_error&) { } look(*e); }
+         }
+
+         // declarations, scopes and regions: variables (with a redeclaration and an overload), an alias, a function with a body 30
+         // blocks deep and two handlers, class / enum / union / namespace, a template and its redeclaration; then lookups
+         ipr::impl::Block* body = nullptr;
+         ipr::impl::Parameter* value_param = nullptr;
+         ipr::impl::Parameter* type_param = nullptr;
+         void declarations()
+         {
+            auto& G = *unit.global_region();
+            auto& lit7 = lex.get_literal(L.int_type(), u8"7");
+            auto& pint = lex.get_pointer(L.int_type());
+            auto& cint = lex.get_qualified(L.const_qualifier(), L.int_type());
+            ipr::impl::Warehouse<ipr::Type> w1, wt;
+            w1.push_back(L.int_type());
+            wt.push_back(L.typename_type());
+            auto& f1 = lex.get_function(lex.get_product(w1), L.int_type());
+            auto& f1c = lex.get_function(lex.get_product(w1), L.int_type(), lex.get_transfer_from_linkage(lex.get_linkage(u8"C")));
+            auto& fa = lex.get_forall(lex.get_product(wt), L.class_type());
+            auto& lab = lex.get_label(id(u8"retry"));
+            auto* sum = lex.make_plus(lit7, *lex.make_mul(idx(u8"x"), idx(u8"y")));
+
+            auto* v = G.declare_var(id(u8"count"), cint);
+            v->init = lex.make_literal(L.int_type(), u8"1024");
+            v->src_locus = ipr::Source_location{ ipr::Line_number{ 11 }, ipr::Column_number{ 22 }, ipr::File_index{ 1 } };
+            v->decl_data.spec = L.static_specifier() | L.constexpr_specifier();
+            G.declare_var(id(u8"x"), L.int_type());
+            G.declare_var(id(u8"x"), L.int_type())->init = sum;          // a redeclaration
+            G.declare_var(id(u8"x"), L.char_type());                     // same name, another type
+            G.declare_alias(id(u8"y"), pint);
+            auto* fn = G.declare_fun(id(u8"f"), f1);
+            auto* m = lex.make_mapping(G, ipr::Mapping_level{ 0 });
+            value_param = m->param(id(u8"a"), L.int_type());
+            m->param(id(u8""), L.int_type());
+            value_param->init = &lit7;
+            m->typing = &f1;
+            body = lex.make_block(m->inputs.region());
+            {
+               ipr::impl::Block* cur = body;
+               for (int d = 0; d < 30; ++d) { auto* inner = lex.make_block(cur->lexical_region); cur->add_stmt(*inner); cur = inner; }
+               auto* local = cur->lexical_region.declare_var(id(u8"local-08"), L.int_type());
+               local->init = sum;
+               local->src_locus = ipr::Source_location{ ipr::Line_number{ 3 }, ipr::Column_number{ 4 }, ipr::File_index{ 2 } };
+               cur->add_stmt(*local);
+               auto* wh = lex.make_while(); wh->control = lex.make_not(idx(u8"y")); wh->stmt = lex.make_break();
+               cur->add_stmt(*wh);
+               auto* fr = lex.make_for(); fr->init = lex.make_assign(idx(u8"x"), lit7); fr->cond = &idx(u8"x"); fr->inc = lex.make_post_increment(idx(u8"x")); fr->stmt = lex.make_continue();
+               cur->add_stmt(*fr);
+               cur->add_stmt(*lex.make_if(idx(u8"x"), *lex.make_return(*sum), *lex.make_goto(lab)));
+               cur->add_stmt(*lex.make_labeled_stmt(lab, *lex.make_expr_stmt(*sum)));
+               auto* sw = lex.make_switch(); sw->control = &idx(u8"x"); sw->stmt = lex.make_break();
+               cur->add_stmt(*sw);
+               auto* h = body->new_handler(id(u8"e0"), L.int_type());
+               h->body().add_stmt(*lex.make_return(lit7));
+               auto* h2 = body->new_handler(id(u8"e1"), L.ellipsis_type());
+               h2->body().add_stmt(*lex.make_expr_stmt(*lex.make_throw(lit7)));
+            }
+            m->body = body;
+            fn->data.emplace<1>(m);
+
+            auto* cls = lex.make_class(G);
+            cls->id = &id(u8"Widget");
+            auto* base = lex.make_class(G); base->id = &id(u8"D");
+            cls->declare_base(*base); cls->declare_base(lex.get_as_type(id(u8"T")));
+            cls->declare_field(id(u8"m0"), L.int_type());
+            cls->declare_field(id(u8"m1"), lex.get_pointer(*cls));
+            cls->declare_bitfield(id(u8"m2"), L.int_type())->length = &lit7;
+            G.declare_type(id(u8"Widget"), L.class_type())->init = cls;
+            auto* en = lex.make_enum(G, ipr::Enum::Kind::Scoped);
+            en->id = &id(u8"Colour");
+            for (auto w : { u8"red", u8"green", u8"blue" }) en->add_member(id(w))->init = &lit7;
+            G.declare_type(id(u8"Colour"), L.enum_type())->init = en;
+            auto* un = lex.make_union(G); un->id = &id(u8"E");
+            un->declare_field(id(u8"m0"), L.int_type()); un->declare_field(id(u8"m1"), pint);
+            G.declare_type(id(u8"E"), L.union_type())->init = un;
+            auto* ns = lex.make_namespace(G); ns->id = &id(u8"N");
+            ns->declare_var(id(u8"m0"), L.int_type())->init = &lit7;
+            G.declare_type(id(u8"N"), L.namespace_type())->init = ns;
+
+            auto* tm = lex.make_mapping(G, ipr::Mapping_level{ 0 });
+            type_param = tm->param(id(u8"T"), L.typename_type());
+            tm->typing = &fa;
+            tm->body = &pint;
+            auto* tpl = G.declare_primary_template(id(u8"T"), fa);
+            tpl->init = tm;
+            G.declare_primary_template(id(u8"T"), fa);                     // a redeclaration
+            (void) lex.get_guide_name(*tpl);
+            G.declare_fun(id(u8"f"), f1c);                                 // (no mapping: the printer refuses it, so it comes last)
+
+            const ipr::Scope& gs = G.bindings();
+            for (auto w : { u8"x", u8"f", u8"T", u8"count", u8"nothing-declared" }) {
+               auto ov = gs[id(w)];
+               if (ov.is_valid()) { auto& o = ov.get(); (void) o[L.int_type()]; (void) o[L.char_type()]; }
+            }
+            for (auto& d : gs.elements()) {
+               (void) d.name(); (void) d.type();
+               try { (void) d.home_region(); (void) d.lexical_region(); } catch (const std::logic_error&) { }
+               try { (void) d.master(); (void) d.decl_set().size(); } catch (const std::logic_error&) { }
+               look(d);
+            }
+            try { (void) tpl->parameters().size(); (void) tpl->result(); } catch (const std::logic_error&) { }
+            (void) static_cast<const ipr::Block&>(*body).try_block();
+            for (const ipr::Region* r = &cls->region(); not r->global(); r = &r->enclosing()) (void) r->owner();
+         }
+
+         void substitutions()
+         {
+            if (type_param == nullptr) {       // (a check whose alphabet has substitutions has parameters too)
+               auto* m = lex.make_mapping(*unit.global_region(), ipr::Mapping_level{ 1 });
+               type_param = m->param(id(u8"T"), L.typename_type());
+               value_param = m->param(id(u8"a"), L.int_type());
+            }
+            auto& pint = lex.get_pointer(L.int_type());
+            auto& lit7 = lex.get_literal(L.int_type(), u8"7");
+            auto* es = lex.make_elementary_substitution(*type_param, pint);
+            (void) static_cast<const ipr::Substitution&>(*es)[*type_param];
+            (void) static_cast<const ipr::Substitution&>(*es)[*value_param];
+            auto* gsub = lex.make_general_substitution();
+            gsub->subst(*type_param, L.int_type()).subst(*value_param, lit7).subst(*type_param, pint);
+            (void) static_cast<const ipr::Substitution&>(*gsub)[*type_param];
+            (void) static_cast<const ipr::Substitution&>(*gsub)[*value_param];
+         }
+
+         // the unit with and without locations, pieces on their own, on a stream that is not in its default configuration
+         void printing()
+         {
+            for (int locations = 0; locations < 2; ++locations) {
+               std::ostringstream os;
+               os << std::hex << std::showbase;
+               ipr::Printer pp{ lex, os };
+               pp.print_locations = locations != 0;
+               try { pp << unit; } catch (const std::logic_error&) { os << "<refused>"; }
+               for (auto t : made_types) { try { pp << ipr::xpr_type(*t); } catch (const std::logic_error&) { os << "<refused>"; } os << ' '; }
+               for (auto e : made_exprs) { try { pp << ipr::xpr_expr(*e); } catch (const std::logic_error&) { os << "<refused>"; } os << ' '; }
+               if (body != nullptr) try { pp << ipr::xpr_stmt(*body); } catch (const std::logic_error&) { os << "<refused>"; }
+               out += os.str();
+            }
+         }
+
+         void module()
+         {
+            ipr::impl::Module mod{ lex };
+            auto* iu = mod.make_unit();
+            iu->global_region()->declare_var(id(u8"x"), L.int_type());
+            mod.iface.global_region()->declare_var(id(u8"y"), L.int_type());
+            (void) static_cast<const ipr::Module_unit&>(*iu).parent_module();
+            if (on(PRINT)) {
+               std::ostringstream os;
+               ipr::Printer pp{ lex, os };
+               try { pp << static_cast<const ipr::Translation_unit&>(*iu); } catch (const std::logic_error&) { }
+               out += os.str();
+            }
+         }
+
+         void run()
+         {
+            if (on(WORDS)) words();
+            if (on(CONSTS)) constants();
+            if (on(LINK)) linkages();
+            if (on(SPEC)) specifiers();
+            if (on(TYPES)) types();
+            if (on(NAMES)) names();
+            if (on(EXPRS)) expressions();
+            if (on(DECLS)) declarations();
+            if (on(SUBST)) substitutions();
+            if (on(PRINT)) printing();
+            if (on(MODULE)) module();
+            out += std::to_string(av.n);
+         }
+      };
 
       struct Decoy {
          ipr::impl::Lexicon lex;
          ipr::impl::Translation_unit unit{ lex };
          std::string text;
-         Decoy() { program(lex, unit, text); module_program(lex, text); }
+         explicit Decoy(unsigned sections) { Program{ lex, unit, text, sections }.run(); }
       };
    }
 
    // Called by every harness right after it parsed its options (through vf::install_crash_handler).
-   inline void prelude()
+   inline void prelude(const char* prop)
    {
       const char* e = std::getenv("VERIF_PRELUDE");
       if (e == nullptr or *e == 0 or std::strcmp(e, "0") == 0) return;
-      std::string first, second;
-      { prelude_detail::Decoy d; first = d.text; }                 // lived and died
-      static prelude_detail::Decoy* alive = new prelude_detail::Decoy;     // stays alive for the rest of the process
-      second = alive->text;
-      if (first != second) {
-         // not an oracle of any property on its own (C17 states it); say so and go on
-         std::fprintf(stderr, "prelude: the two decoy Lexicons printed different text (%zu / %zu bytes)\n", first.size(), second.size());
-      }
+      const unsigned sections = prelude_detail::sections_for(prop);
+      if (sections == 0) return;
+      { prelude_detail::Decoy d{ sections }; }                                       // lived and died
+      static prelude_detail::Decoy* alive = new prelude_detail::Decoy{ sections };   // stays alive for the rest of the process
+      (void) alive;
    }
 }
 
